@@ -130,7 +130,7 @@ func (s DefaultRESTStrategy) PrepareForUpdate(ctx context.Context, obj, old runt
 		specOld := reflect.ValueOf(old).Elem().FieldByName("Spec")
 
 		// Spec and annotation updates bump the generation.
-		if !reflect.DeepEqual(specNew, specOld) ||
+		if !reflect.DeepEqual(specNew.Interface(), specOld.Interface()) ||
 			!reflect.DeepEqual(accessorNew.GetAnnotations(), accessorOld.GetAnnotations()) {
 			accessorNew.SetGeneration(accessorOld.GetGeneration() + int64(1))
 		}
